@@ -504,6 +504,17 @@ func (pr *prover) le(a, b term, pt point, depth int, seen map[[2]ssa.Value]bool)
 			}
 		}
 	}
+	// trimming only removes: len(strings/bytes.Trim*(s, ...)) <= len(s)
+	if a.v != nil && b.v != nil {
+		if ax, bx := lenOperand(a.v), lenOperand(b.v); ax != nil && bx != nil && a.off <= b.off {
+			if c := an.CallOf(ax); c != nil {
+				cn := an.CallName(c)
+				if (strings.HasPrefix(cn, "strings.Trim") || strings.HasPrefix(cn, "bytes.Trim")) && len(c.Args) > 0 && eqVal(c.Args[0], bx) {
+					return true
+				}
+			}
+		}
+	}
 	// sort.SearchStrings/Ints/Float64s(a, x) <= len(a); sort.Search(n, f) <= n
 	if c := an.CallOf(a.v); c != nil && b.v != nil {
 		switch an.CallName(c) {
@@ -1508,6 +1519,23 @@ func (pr *prover) constLenAt(x ssa.Value, pt point, depth int, seen map[ssa.Valu
 		if al, ok := v.X.(*ssa.Alloc); ok && v.Low == nil && v.High == nil {
 			if arr, ok := al.Type().Underlying().(*types.Pointer).Elem().Underlying().(*types.Array); ok {
 				return arr.Len(), true
+			}
+		}
+		if v.Low == nil && v.High == nil {
+			return pr.constLenAt(v.X, pt, depth+1, seen)
+		}
+		if _, ok := v.X.(*ssa.Alloc); ok && v.High != nil {
+			// make([]T, n) with a constant n: a slice [:n] of a fresh array
+			lo := int64(0)
+			if v.Low != nil {
+				c, ok := an.ConstInt(v.Low)
+				if !ok {
+					return 0, false
+				}
+				lo = c
+			}
+			if hi, ok := an.ConstInt(v.High); ok && hi >= lo {
+				return hi - lo, true
 			}
 		}
 	case *ssa.MakeSlice:
